@@ -74,3 +74,30 @@ pub fn gnu_no_stop_bit() {
         kani::cover!(matches!(r, Ok(None)) && t.hdr.nbloom == 1 && t.hdr.nbucket == 1, "walk ended with None");
     }
 }
+
+/// One step from an ARBITRARY iterator state: a single next() of a version-record iterator does a constant amount of work
+/// (it parses one record and follows one link), whatever count, start offset and bytes it is given. The unwinding assertion of
+/// this harness (bound 3) is the obligation: today next() contains no loop at all, so any loop a change introduces into one step
+/// must be bounded by a constant, not by the declared count or by link values. Together with "at most one item per byte" above
+/// (the number of steps) this bounds the total work of an iteration by the input size.
+macro_rules! ver_one_step {
+    ($name:ident, $iter:ident, $cnt:ty, $b:expr) => {
+        #[kani::proof]
+        #[kani::unwind(3)]
+        pub fn $name() {
+            let (buf, len) = any_buf::<$b>();
+            let data = &buf[..len];
+            let e = any_endian();
+            let count: $cnt = kani::any();
+            let start: usize = kani::any();
+            let mut it = $iter::new(e, Class::ELF64, count, start, data);
+            let first = it.next();
+            kani::cover!(first.is_some(), "the step yields a record");
+            kani::cover!(first.is_none(), "the step ends the iteration");
+        }
+    };
+}
+ver_one_step!(verneed_one_step, VerNeedIterator, u64, 24);
+ver_one_step!(vernaux_one_step, VerNeedAuxIterator, u16, 24);
+ver_one_step!(verdef_one_step, VerDefIterator, u64, 24);
+ver_one_step!(verdaux_one_step, VerDefAuxIterator, u16, 24);
